@@ -587,4 +587,63 @@ Definition fetch_close (fuel : nat) (offset hwm : Z) (i : list N) (remain : Z) (
     Some (ms, e, off, batch_close_err b, closed)
   end.
 
+(* ---- the partition header of a fetch response (read.go readFetchResponseHeaderV2/V5/V10) ----
+   v2 carries the high watermark only; v5 and v10 add the last stable offset, the log start
+   offset and the aborted transactions.  The high watermark handed to the Batch — the value
+   Conn.ReadBatchWith compares with the fetch offset ("nothing to read") and Batch.HighWaterMark
+   reports — is the high_watermark field for EVERY version: never the last stable offset (an
+   open transaction keeps it below the high watermark while read_uncommitted fetches return
+   records up to the high watermark). *)
+Record fetch_hdr := mkFH {
+  fh_hwm : Z;                         (* high_watermark *)
+  fh_lso : Z;                         (* last_stable_offset (v4+) *)
+  fh_log_start : Z;                   (* log_start_offset (v5+) *)
+  fh_aborted : list (Z * Z)           (* aborted transactions: producer id, first offset (v4+) *)
+}.
+Definition hwm_of_header (version : Z) (h : fetch_hdr) : Z :=
+  if version <? 4 then fh_hwm h          (* v2: the only offset of the header *)
+  else if version <? 10 then fh_hwm h    (* v5 *)
+  else fh_hwm h.                         (* v10 *)
+
+Definition fetch_close_hdr (fuel : nat) (version offset : Z) (h : fetch_hdr) (i : list N) (remain : Z) (late : bool) :=
+  fetch_close fuel offset (hwm_of_header version h) i remain late.
+
+(* ---- the io.Reader style entry points: Batch.Read / Conn.Read ----
+   Batch.Read(b) reads ONE message (no skipping of messages below the position: that loop is
+   in ReadMessage only) and copies its value into b.  When the value does not fit, the call
+   fails with io.ErrShortBuffer, the batch is unusable, and batch.offset is ROLLED BACK: the
+   short-buffer read is a no-op on the position, so a new batch on the same Conn (Conn.Read
+   retried with a larger buffer) starts at the message that was not handed out. *)
+Inductive rdres := RVal (v : list N) | RShort | REnd (e : err).
+
+(* the reads of one batch, one buffer length per call; the batch the calls end in; whether they
+   ended with io.ErrShortBuffer *)
+Fixpoint batch_reads (fuel : nat) (b : batch) (bufs : list Z) {struct bufs} : list rdres * batch * bool :=
+  match bufs with
+  | [] => ([], b, false)
+  | n :: t =>
+    match batch_read1 fuel b with
+    | BMsg g b' =>
+      if n <? len (g_val g) then
+        (* the message was consumed from the response, the position was not *)
+        ([RShort], set_b b' (b_msgs b') (b_off b) (b_last b) (b_err b'), true)
+      else let '(rs, b2, sh) := batch_reads fuel b' t in (RVal (g_val g) :: rs, b2, sh)
+    | BErr e b' => ([REnd e], b', false)
+    | BPanic => ([REnd EFuel], b, false)
+    end
+  end.
+
+(* Batch.Close after these reads: Conn.offset, what Close returns, whether the library closes the
+   connection.  After io.ErrShortBuffer: the error of skipping the rest of the response wins
+   (the connection is lost); otherwise Close returns io.ErrShortBuffer and the connection is kept *)
+Inductive ccls := CNil | CShortBuf | CErr (e : err).
+Definition reads_close (b : batch) (short : bool) : Z * ccls * bool :=
+  if short then
+    match (match b_msgs b with Some m => msr_discard m | None => None end) with
+    | Some _ => (b_off b, CErr EIO, true)
+    | None => (b_off b, CShortBuf, false)
+    end
+  else
+    (b_off b, match batch_close_err b with None => CNil | Some e => CErr e end, snd (batch_close b)).
+
 End Decomp.
